@@ -437,13 +437,17 @@ class SkoolWriter:
             block.comment[0] = (0, comment)
         if multi_line or comment.startswith('{'):
             balance = comment.count('{') - comment.count('}')
-            if multi_line and balance < 0:
-                opening = '{' * (1 - balance)
+            depth = lowest = 0
+            for c in comment:
+                depth += (c == '{') - (c == '}')
+                lowest = min(lowest, depth)
+            if multi_line and lowest < 0:
+                opening = '{' * (1 - lowest)
             else:
                 opening = '{'
+            closing = '}' * max(len(opening) + balance, 1)
             if comment.startswith('{'):
                 opening = opening + ' '
-            closing = '}' * max(1 + balance, 1)
             if comment.endswith('}'):
                 closing = ' ' + closing
         if len(block.comment) == 1:
